@@ -46,5 +46,164 @@ theorem isSignOp_isSign (op : UInt8) (e : Ev) (h : isSignOp op e = true) : isSig
     simpa [List.take_take] using this
   | _ => cases h
 
+theorem sendChunks_apply (cmd op : UInt8) (nexts : List UInt8) (data : Bytes) (full : Bool) (init : Nat) (w : World) :
+    sendChunks cmd op nexts data full init w =
+      ⟨(sendChunksAux cmd op nexts data full 0 init w.script).1,
+       (sendChunksAux cmd op nexts data full 0 init w.script).2.1.map Ev.apdu,
+       { w with script := (sendChunksAux cmd op nexts data full 0 init w.script).2.2 }⟩ := rfl
+
+/-- what one chunked step does, for every device: it sends messages of its own operation only,
+    whose payloads form a prefix of the step's data; and if it reports success (`ok`), the whole
+    data was sent -/
+theorem chunkStep_spec {β : Type} (op : UInt8) (nexts : List UInt8) (data : Bytes) (init : Nat)
+    (rule : List (List Nat × Int) × Int) (post : Bytes → M (Except Int β))
+    (hpost : ∀ resp w, (post resp w).evs = []) (w : World) :
+    ∃ as : List Bytes, (chunkStep op nexts data init rule post w).evs = as.map Ev.apdu ∧
+      (∀ a ∈ as, a.take 3 = [CLA, CMD_SIGN, op]) ∧ (∃ k, payloads as = data.take k) ∧
+      (∀ x, (chunkStep op nexts data init rule post w).val = .ok (.ok x) → payloads as = data) := by
+  have hshape := sendChunksAux_shape CMD_SIGN op nexts data true w.script 0 init
+  have hok := sendChunksAux_ok CMD_SIGN op nexts data true w.script 0 init
+  refine ⟨(sendChunksAux CMD_SIGN op nexts data true 0 init w.script).2.1, ?_, hshape.1, by simpa using hshape.2, ?_⟩
+  all_goals
+    unfold chunkStep catchResult M.tryCatchIf
+    rw [bind_apply, sendChunks_apply]
+    generalize sendChunksAux CMD_SIGN op nexts data true 0 init w.script = r at hok
+    obtain ⟨v, as, s'⟩ := r
+    cases v with
+    | error e =>
+      simp only
+      cases e <;> simp [M.throw']
+    | ok p =>
+      obtain ⟨okb, resp⟩ := p
+      simp only
+      cases okb with
+      | false =>
+        simp
+      | true =>
+        simp only [Bool.not_true, Bool.false_eq_true, if_false]
+        have hp := hpost resp { w with script := s' }
+        generalize post resp { w with script := s' } = q at hp
+        obtain ⟨qv, qe, qw⟩ := q
+        simp only at hp; subst hp
+        cases qv with
+        | error e => cases e <;> simp [M.throw']
+        | ok y =>
+          simp
+          try (intro _ _; simpa using (hok resp rfl).2 rfl (Nat.zero_le _))
+
+/-- the first message of an authorized signature: path and input index -/
+def pathMsg (a : SignAuthArgs) : Bytes :=
+  CLA :: CMD_SIGN :: OP_PATH :: (Bip32.toBinary a.path ++ Bytes.le 4 a.input.toNat)
+
+theorem nextSize_silent (resp : Bytes) : Silent (nextSize resp) := by
+  unfold nextSize
+  exact Emits.bind (idx_emits _ _) fun _ => Emits.pure _
+
+theorem signStep1_evs (a : SignAuthArgs) (w : World) : (signStep1 a w).evs = [.apdu (pathMsg a)] := by
+  unfold signStep1 catchResult
+  rw [tryCatchIf_evs_silent, bind_evs_silent, sendCommand_evs]
+  · rfl
+  · intro resp
+    refine Emits.bind (idx_emits _ _) fun rop => ?_
+    split
+    · exact Emits.pure _
+    · exact nextSize_silent _
+  · intro e
+    split
+    · exact Emits.pure _
+    · exact Emits.throw _
+
+/-- a continuation that only runs when the step succeeded: the trace is the step's trace followed
+    by the continuation's, and the final result is a signature only if the step succeeded -/
+theorem step_then {β : Type} (m : M (Except Int β)) (k : β → M SignOut) (w : World) :
+    (((m >>= fun s => orFail s k) w).evs = (m w).evs ∧
+      ∀ rr ss, ((m >>= fun s => orFail s k) w).val ≠ .ok (.sig rr ss)) ∨
+    (∃ x, (m w).val = .ok (.ok x) ∧
+      ((m >>= fun s => orFail s k) w).evs = (m w).evs ++ (k x (m w).w).evs ∧
+      ((m >>= fun s => orFail s k) w).val = (k x (m w).w).val) := by
+  rw [bind_apply]
+  cases hm : m w with
+  | mk v e w1 =>
+    cases v with
+    | error ex => left; simp
+    | ok s =>
+      cases s with
+      | error c => left; simp [orFail]
+      | ok x => right; exact ⟨x, rfl, by simp [orFail], by simp [orFail]⟩
+
+theorem pure_silent {α : Type} (a : α) : Silent (pure a : M α) := Emits.pure _
+
+/-- what a part looks like on the wire: messages of one operation whose payloads form a prefix
+    of the part's bytes -/
+def PartOf (op : UInt8) (data : Bytes) (as : List Bytes) : Prop :=
+  (∀ x ∈ as, x.take 3 = [CLA, CMD_SIGN, op]) ∧ ∃ k, payloads as = data.take k
+
+theorem partOf_nil (op : UInt8) (data : Bytes) : PartOf op data [] := ⟨by simp, 0, by simp⟩
+
+theorem tail4_spec (pp : Bytes) (req3 : Nat) (w : World) :
+    ∃ as4, (signTail4 pp req3 w).evs = as4.map Ev.apdu ∧ PartOf OP_MERKLE_PROOF pp as4 ∧
+      (∀ rr ss, (signTail4 pp req3 w).val = .ok (.sig rr ss) → payloads as4 = pp) := by
+  obtain ⟨as4, he, hh, hp, hs⟩ := chunkStep_spec OP_MERKLE_PROOF [OP_SUCCESS] pp req3 Generated.signAuthorized_3
+    (fun resp => pure (Except.ok resp)) (fun _ _ => rfl) w
+  refine ⟨as4, ?_, ⟨hh, hp⟩, ?_⟩
+  · unfold signTail4
+    rcases (step_then _ _ w) with ⟨h1, _⟩ | ⟨x, _, h2, _⟩
+    · rw [h1, he]
+    · rw [h2, he]; simp
+  · intro rr ss hv
+    unfold signTail4 at hv
+    rcases (step_then _ _ w) with ⟨_, h1⟩ | ⟨x, hx, _, _⟩
+    · exact absurd hv (h1 rr ss)
+    · exact hs x hx
+
+theorem tail3_spec (a : SignAuthArgs) (req2 : Nat) (w : World) :
+    ∃ as3 as4, (signTail3 a req2 w).evs = (as3 ++ as4).map Ev.apdu ∧ PartOf OP_TX_RECEIPT a.receipt as3 ∧
+      PartOf OP_MERKLE_PROOF ((proofPayload a.proof).getD []) as4 ∧
+      (∀ rr ss, (signTail3 a req2 w).val = .ok (.sig rr ss) →
+        payloads as3 = a.receipt ∧ proofPayload a.proof = some (payloads as4)) := by
+  obtain ⟨as3, he, hh, hp, hs⟩ := chunkStep_spec OP_TX_RECEIPT [OP_MERKLE_PROOF] a.receipt req2
+    Generated.signAuthorized_2 nextSize (fun r w => (nextSize_silent r).evs w) w
+  unfold signTail3
+  rcases (step_then _ (signProof a) w) with ⟨h1, h1'⟩ | ⟨x, hx, h2, h2'⟩
+  · refine ⟨as3, [], by rw [h1, he]; simp, ⟨hh, hp⟩, partOf_nil _ _, fun rr ss hv => absurd hv (h1' rr ss)⟩
+  · cases hpp : proofPayload a.proof with
+    | none =>
+      refine ⟨as3, [], ?_, ⟨hh, hp⟩, partOf_nil _ _, ?_⟩
+      · rw [h2, he]; simp [signProof, hpp]
+      · intro rr ss hv; rw [h2'] at hv; simp [signProof, hpp] at hv
+    | some pp =>
+      obtain ⟨as4, he4, hp4, hs4⟩ := tail4_spec pp x _
+      refine ⟨as3, as4, ?_, ⟨hh, hp⟩, by simpa [hpp] using hp4, ?_⟩
+      · rw [h2, he]; simp only [signProof, hpp]; rw [he4]; simp
+      · intro rr ss hv
+        rw [h2'] at hv; simp only [signProof, hpp] at hv
+        exact ⟨hs x hx, by rw [hs4 rr ss hv]⟩
+
+theorem tail2_spec (a : SignAuthArgs) (req1 : Nat) (w : World) :
+    ∃ as2 as3 as4, (signTail2 a req1 w).evs = (as2 ++ as3 ++ as4).map Ev.apdu ∧
+      PartOf OP_BTC_TX ((btcPayload a).getD []) as2 ∧ PartOf OP_TX_RECEIPT a.receipt as3 ∧
+      PartOf OP_MERKLE_PROOF ((proofPayload a.proof).getD []) as4 ∧
+      (∀ rr ss, (signTail2 a req1 w).val = .ok (.sig rr ss) →
+        btcPayload a = some (payloads as2) ∧ payloads as3 = a.receipt ∧
+        proofPayload a.proof = some (payloads as4)) := by
+  unfold signTail2
+  cases hb : btcPayload a with
+  | none =>
+    exact ⟨[], [], [], rfl, partOf_nil _ _, partOf_nil _ _, partOf_nil _ _, fun rr ss hv => by simp at hv⟩
+  | some p =>
+    simp only
+    obtain ⟨as2, he, hh, hp, hs⟩ := chunkStep_spec OP_BTC_TX [OP_TX_RECEIPT] p req1
+      Generated.signAuthorized_1 nextSize (fun r w => (nextSize_silent r).evs w) w
+    rcases (step_then _ (signTail3 a) w) with ⟨h1, h1'⟩ | ⟨x, hx, h2, h2'⟩
+    · exact ⟨as2, [], [], by rw [h1, he]; simp, ⟨hh, by simpa using hp⟩, partOf_nil _ _, partOf_nil _ _,
+        fun rr ss hv => absurd hv (h1' rr ss)⟩
+    · obtain ⟨as3, as4, he3, hp3, hp4, hs3⟩ := tail3_spec a x _
+      refine ⟨as2, as3, as4, ?_, ⟨hh, by simpa using hp⟩, hp3, hp4, ?_⟩
+      · rw [h2, he, he3]; simp
+      · intro rr ss hv
+        rw [h2'] at hv
+        obtain ⟨r3, r4⟩ := hs3 rr ss hv
+        exact ⟨by rw [hs x hx], r3, r4⟩
+
 end Dongle
 end PowHsm
